@@ -179,6 +179,8 @@ def make_scheduler(kind, space, p, seed):
                   brackets=p.get("brackets", 1), **common)
         if p["type"] == "cost_promotion":
             kw["cost_attr"] = "elapsed_time"
+        if p.get("rung_system_kwargs") is not None:
+            kw["rung_system_kwargs"] = dict(p["rung_system_kwargs"])     # explicit nested option dict
         return with_clock(cls("hyperband", "HyperbandScheduler")(space, **kw))
     if kind in ("synchb", "dehb"):
         name = ("SynchronousGeometricHyperbandScheduler" if kind == "synchb"
@@ -327,7 +329,30 @@ def run_sched_case(case, twin, repo):
             params = dict(case["params"], _built=build_options(space, case["params"].get("opts")))
             NO_CLOCK[0] = bool(case.get("no_clock"))   # no TimeKeeper passed: the scheduler falls back to real time
             try:
+                # unrelated instances of the same class with explicit NON-default nested options, sharing the
+                # configuration-space object and the option lists with the scheduler under test: twin B is
+                # constructed AFTER them, twin A BEFORE them
+                def pollute():
+                    for pk, pp in case.get("polluters") or []:
+                        try:
+                            # shared with the scheduler under test: the configuration-space object and the
+                            # points_to_evaluate list object.  NOT shared: the restrict_configurations list -- the
+                            # searchers keep and shrink the caller's list in place (searcher_base.py: .pop(pos)),
+                            # so two schedulers given ONE list object do interfere; reported as an observation,
+                            # not judged here
+                            r0, p0 = params["_built"]
+                            q = dict(pp, _built=(None if r0 is None else [dict(c) for c in r0], p0)) \
+                                if pp.get("share_opts") else dict(pp)
+                            o = make_scheduler(pk, space, q, pert.randrange(2 ** 31))
+                            others.append([o, 1000])
+                        except Exception:
+                            pass
+
+                if twin == "B":
+                    pollute()
                 sched = rec.call("__init__", make_scheduler, case["kind"], space, params, case["random_seed"])
+                if twin != "B":
+                    pollute()
             finally:
                 NO_CLOCK[0] = False
             max_t = case["params"].get("max_t", 4)
@@ -372,6 +397,12 @@ def run_sched_case(case, twin, repo):
                 epoch += 1
                 running[tid][1] = epoch
                 val = round(ev.random(), 3) if case.get("ties") else ev.random()
+                if case.get("loss_profile") == "rush":
+                    # the first two trials (threshold candidates of RUSH) are good; later ones are spread, so that
+                    # some pass the successive-halving quantile rule but not the RUSH threshold
+                    val = (ev.uniform(0.2, 0.4) if tid < 2 else ev.uniform(0.25, 0.9)) + 0.3 / epoch
+                    if case["params"].get("mode") == "max":
+                        val = -val
                 result = {"loss": val, "epoch": epoch, "elapsed_time": float(epoch) * (1.0 + ev.random())}
                 dec = rec.call("on_trial_result", sched.on_trial_result, tr, result)
                 trace.append(["result", tid, epoch, str(dec)])
